@@ -193,6 +193,15 @@ func (p *pipe) pending() int {
 // inject appends an envelope as if the peer had written it (raw peer).
 func (p *pipe) inject(r *goat.Rpc) {
 	p.mu.Lock()
+	if p.ser {
+		// what a peer's envelope looks like after a real wire: empty byte fields arrive as nil, not as empty slices
+		if b, err := proto.Marshal(r); err == nil {
+			cp := &goat.Rpc{}
+			if proto.Unmarshal(b, cp) == nil {
+				r = cp
+			}
+		}
+	}
 	p.q = append(p.q, r)
 	p.nW++
 	if p.wEv != "" {
